@@ -557,6 +557,13 @@ def gen_spec(rng, fmt=None, maxn=5, maxt=4, small=False):
     dims = rng.permutation(np.arange(1, hi + 2))[:3]
     nx, ny, nz = int(dims[0]), int(dims[1]), int(dims[2])
     nt = int(rng.integers(1, maxt + 1))
+    if maxt >= 4 and not small and rng.random() < (
+            0.25 if fmt == 'wind' else 0.08):
+        # many steps (on these small grids the per-step size is small, so
+        # size-based step counting is sensitive to every byte per step)
+        nt = int(rng.integers(6, 31))
+        if rng.random() < 0.5:
+            nz = 1
     nsp = int(rng.integers(1, 5))
     pool = ['O3', 'NO2', 'NO', 'CO', 'PAR', 'ISOP', 'NO2X', 'ABCDEFGHIJ',
             'PM25', 'O']
